@@ -25,11 +25,12 @@ _RT = ["contracts.runtime"]
 _IN = ["contracts.interpret"]
 _OV = ["contracts.overlay"]
 _LC = ["contracts.lifecycle"]
+_TF = ["contracts.transform"]
 CONTRACT_MODULES = {
     "C12": ["contracts.c12"],
-    "C04": ["contracts.c12"] + _RT,
-    "C02": _RT + _OV + _IN, "C16": _RT, "C01": _RT,
-    "C03": _OV + _IN, "C07": _OV + _IN, "C11": _IN + _OV, "C05": _OV + _LC, "C09": _OV, "C17": _OV + _LC, "C10": _OV + _LC, "C14": _LC, "C18": _LC,
+    "C04": ["contracts.c12"] + _RT + _TF,
+    "C02": _RT + _OV + _IN + _TF, "C16": _RT + _TF, "C01": _RT + _TF, "C06": _TF,
+    "C03": _OV + _IN, "C07": _OV + _IN, "C11": _IN + _OV + _TF, "C05": _OV + _LC, "C09": _OV, "C17": _OV + _LC, "C10": _OV + _LC + _TF, "C14": _LC, "C18": _LC,
 }
 
 UNIT_WALL_BUDGET = {"quick": 150, "thorough": 600}
